@@ -69,7 +69,11 @@ let parse w =
   | "objsize" -> OObjSize (num 1, num 2)
   | "getattr" -> OGetAttr (num 1, num 2, query w 3)
   | "setattr" -> OSetAttr (num 1, num 2, template w 3)
-  | "findinit" -> OFindInit (num 1, template w 2)
+  | "findinit" ->
+      let tm = template w 2 in
+      let i = 3 + (3 * List.length tm) in
+      let np = if List.length w > i then int_of_string (a i) else 0 in
+      OFindInit (num 1, tm, List.init np (fun j -> match optbytes (a (i + 1 + j)) with Some b -> b | None -> []))
   | "find" -> OFind (num 1, num 2)
   | "findfinal" -> OFindFinal (num 1)
   | "useinit" -> OUseInit (num 1, num 2, num 3)
